@@ -293,6 +293,17 @@ Section Registry.
     - rewrite (unavailable_is_unknown cfg n H). discriminate.
   Qed.
 
+  (** a chain of names runs exactly the implementations of its enabled elements, in order: switched-off names are skipped *)
+  Theorem chain_calls_spec : forall cfg elems,
+      chain_calls sent reg cfg elems = map (impl_of k) (filter (enabled reg cfg) elems).
+  Proof.
+    intros cfg. induction elems as [|n t IH]; [reflexivity|].
+    unfold chain_calls in *. cbn [flat_map filter]. rewrite IH.
+    destruct (enabled reg cfg n) eqn:E.
+    - apply names_enabled in E. now rewrite (lookup_own cfg n E).
+    - now rewrite (off_is_unknown cfg n E).
+  Qed.
+
   Theorem does_name_exist_spec : forall cfg n,
       does_name_exist sent (names_arr reg cfg) n = Some (enabled reg cfg n).
   Proof.
